@@ -349,6 +349,19 @@ def r3(ctx, facts):
                                 mm = field_slice(b, ops["max_rep_factor"])[0]
                                 if {l for l, _ in sl} & {l for l, _ in mm}:
                                     same = True
+                    if not same:
+                        # the ring was filled by a loop: values pushed into a collection that the ring is built from
+                        mm = {l for l, _ in field_slice(b, ops["max_rep_factor"])[0]}
+                        ring_locals = {l for l, _ in field_slice(b, ops["replicas_for_token"])[0]}
+                        for bb2, c2 in b.calls():
+                            if bb2 not in b.live_blocks or (c2.decl or c2.name or "").split("::")[-1] not in ("push", "extend", "insert", "push_back", "extend_from_slice") or len(c2.args) < 2:
+                                continue
+                            recv = {l for l, _ in field_slice(b, c2.args[0])[0]}
+                            if not (recv & ring_locals):
+                                continue
+                            for a in c2.args[1:]:
+                                if {l for l, _ in field_slice(b, a)[0]} & mm:
+                                    same = True
                     r.instance("ring-remembers-its-rf:" + fn_short(b.path), same, "max_rep_factor must be the RF the ring was computed for (it is %s)" % d.fmt_expr(m), b.stmt_span(st))
     if n_agg < 2:
         raise AnchorLost("compute: expected the global and the per-datacenter PrecomputedReplicasRing aggregates, found %d" % n_agg)
